@@ -180,12 +180,15 @@ class MemPerDocReader(base.PerDocumentReader):
                    in self._segment._lengths.values())
 
     def min_field_length(self, fieldname):
-        return min(lens[fieldname] for lens in self._segment._lengths.values()
-                   if fieldname in lens)
+        # (0 when no buffered document has the field)
+        return min([lens[fieldname] for lens
+                    in self._segment._lengths.values()
+                    if fieldname in lens] or [0])
 
     def max_field_length(self, fieldname):
-        return max(lens[fieldname] for lens in self._segment._lengths.values()
-                   if fieldname in lens)
+        return max([lens[fieldname] for lens
+                    in self._segment._lengths.values()
+                    if fieldname in lens] or [0])
 
     def has_vector(self, docnum, fieldname):
         return (docnum in self._segment._vectors
